@@ -65,6 +65,8 @@ type OpRec struct {
 	Ptr    uintptr // identity of the returned / operated object
 	Obj    interface{}
 	Panic  string
+	PanicRT bool // the panic value is a runtime.Error (nil dereference, index out of range, ...)
+	PanicVal interface{}
 	Err    string
 	Extra  interface{}
 }
